@@ -39,18 +39,68 @@ def encUsers (l : List Bytes) : String := if l.isEmpty then "-" else ",".interca
 
 def dropPre (s : String) (n : Nat) : String := (s.drop n).toString
 
-/-- "U=… D=… P=…" -/
-def parseCfg (ws : List String) : Option ConfS :=
+/-- "1.0,1.1,…" → (itemsPerPage, page) -/
+def parseQueries (s : String) : Option (List (Nat × Nat)) :=
+  if s == "-" || s == "" then some [] else
+  (s.splitOn ",").mapM fun q => match q.splitOn "." with
+    | [a, b] => do pure ((← a.toNat?), (← b.toNat?))
+    | _ => none
+
+/-- "U=… D=… P=… Q=…" -/
+def parseCfg (ws : List String) : Option (ConfS × List (Nat × Nat)) :=
   match ws with
-  | [u, d, p] => do
+  | [u, d, p, q] => do
     let users ← decodeList (dropPre u 2)
     let defaults ← decPair (dropPre d 2)
     let paths ← decPaths (dropPre p 2)
-    pure { users, defaults, paths }
+    let qs ← parseQueries (dropPre q 2)
+    pure ({ users, defaults, paths }, qs)
   | _ => none
+
+def encPages (l : List ((Nat × Nat) × List (String × PathS))) : String :=
+  ";".intercalate (l.map fun e => toString e.1.1 ++ "." ++ toString e.1.2 ++ "=" ++ encPaths e.2)
+
+/-- "1.0=<items|->;1.1=…" -/
+def decPages (s : String) : Option (List ((Nat × Nat) × List (String × PathS))) :=
+  if s == "" then some [] else
+  (s.splitOn ";").mapM fun e => match e.splitOn "=" with
+    | [q, items] => match q.splitOn "." with
+      | [a, b] => do pure (((← a.toNat?), (← b.toNat?)), (← decPaths items))
+      | _ => none
+    | _ => none
 
 def parseSteps (s : String) : Option (List (List Nat)) :=
   (s.splitOn ",").mapM fun w => (w.splitOn ".").mapM String.toNat?
+
+def stepDump (d : D) (op impl : String) : D × DrvOut :=
+  match words op with
+  | ["dump", _, _, rl, hl, hs, body, secrets] =>
+    let parsed : Option (Bytes × Bytes × List Header × Bytes × List Bytes) := do
+      let rl ← Hex.decode rl
+      let hl ← Hex.decode hl
+      let hs ← if hs == "-" then some [] else (hs.splitOn ",").mapM fun kv => match kv.splitOn "=" with
+        | [k, vs] => do pure ((← Hex.decode k), (← (vs.splitOn "|").mapM Hex.decode))
+        | _ => none
+      let body ← Hex.decode body
+      let secrets ← decodeList secrets
+      pure (rl, hl, hs, body, secrets)
+    match parsed with
+    | none => (d, { model := "bad-op", spec := "FAIL unparsable dump op" })
+    | some (rl, hl, hs, body, _) =>
+      let model := Hex.encode (dump canon d.redactSet rl hl hs body)
+      let spec := match Hex.decode impl with
+        | none => "FAIL unparsable implementation answer"
+        | some out =>
+          -- the spec is evaluated on the IMPLEMENTATION's dump; secrets = every non-empty value of every
+          -- header whose name is a listed credential header up to case
+          let (bad, badOther) := leaked d.redactSet rl hl hs body out
+          if !bad.isEmpty then
+            "FAIL the value of a credential header appears in the request dump: " ++ bytesStr (bad.head?.getD [])
+          else if !badOther.isEmpty then
+            "FAIL the value of a credential header with a non-canonically spelled key appears in the request dump: " ++ bytesStr (badOther.head?.getD [])
+          else "ok"
+      (d, { model, spec })
+  | _ => (d, { model := "bad-op" })
 
 def step (d : D) (op impl : String) : D × DrvOut :=
   match words op with
@@ -78,56 +128,36 @@ def step (d : D) (op impl : String) : D × DrvOut :=
         else "ok"
       ({ redactSet := rs }, { model := "ok", spec })
     | _, _, _ => (d, { model := "bad-op", spec := "FAIL unparsable reset line" })
-  | "cfg" :: _ :: cols =>
+  | kind :: _ :: cols =>
+    if kind != "cfg" && kind != "cfgbig" then stepDump d op impl else
     match parseCfg cols with
     | none => (d, { model := "bad-op", spec := "FAIL unparsable configuration columns" })
-    | some c =>
+    | some (c, qs) =>
       let r := redact c
+      let pages := qs.map fun q => (q, pageOf r.paths q.1 q.2)
       let model := "G=" ++ encUsers r.users ++ " D=" ++ encPair r.defaults ++ " L=" ++ encPaths r.paths ++
-        " P=" ++ encPaths r.paths ++ " leaks=0 pure=1"
+        " P=" ++ encPaths r.paths ++ " Q=" ++ encPages pages ++ " leaks=0 pure=1"
       let spec :=
         match words impl with
-        | [g, dd, l, p, leaks, pure] =>
-          match decodeList (dropPre g 2), decPair (dropPre dd 2), decPaths (dropPre l 2), decPaths (dropPre p 2) with
-          | some us, some df, some ls, some ps =>
+        | [g, dd, l, p, q, leaks, pure] =>
+          match decodeList (dropPre g 2), decPair (dropPre dd 2), decPaths (dropPre l 2), decPaths (dropPre p 2),
+                decPages (dropPre q 2) with
+          | some us, some df, some ls, some ps, some pgs =>
             let v1 : ConfS := { users := us, defaults := df, paths := ls }
             let v2 : ConfS := { users := us, defaults := df, paths := ps }
+            let badPage := pgs.find? fun e => !(e.2.all fun x => safePath x.2)
             if !(safeConf v1 && safeConf v2) then "FAIL a password value is served by a configuration GET endpoint"
+            else if let some e := badPage then
+              "FAIL a password value is served by config/paths/list?itemsPerPage=" ++ toString e.1.1 ++ "&page=" ++ toString e.1.2
             else if leaks != "leaks=0" then "FAIL a password string occurs in the body of a configuration GET response"
             else if pure != "pure=1" then "FAIL producing the redacted view modified the live configuration"
             else if us.length != c.users.length || ls.map (·.1) != c.paths.map (·.1) || ps.map (·.1) != c.paths.map (·.1) then
               "FAIL the served view does not have the users / paths of the configuration"
+            else if pgs.map (·.1) != qs || pgs.any (fun e => e.2.map (·.1) != (pageOf c.paths e.1.1 e.1.2).map (·.1)) then
+              "FAIL a page of config/paths/list does not hold the paths of that page"
             else "ok"
-          | _, _, _, _ => "FAIL unparsable implementation answer"
+          | _, _, _, _, _ => "FAIL unparsable implementation answer"
         | _ => "FAIL unparsable implementation answer: " ++ (impl.take 80).toString
-      (d, { model, spec })
-  | ["dump", _, _, rl, hl, hs, body, secrets] =>
-    let parsed : Option (Bytes × Bytes × List Header × Bytes × List Bytes) := do
-      let rl ← Hex.decode rl
-      let hl ← Hex.decode hl
-      let hs ← if hs == "-" then some [] else (hs.splitOn ",").mapM fun kv => match kv.splitOn "=" with
-        | [k, vs] => do pure ((← Hex.decode k), (← (vs.splitOn "|").mapM Hex.decode))
-        | _ => none
-      let body ← Hex.decode body
-      let secrets ← decodeList secrets
-      pure (rl, hl, hs, body, secrets)
-    match parsed with
-    | none => (d, { model := "bad-op", spec := "FAIL unparsable dump op" })
-    | some (rl, hl, hs, body, _) =>
-      let model := Hex.encode (dump canon d.redactSet rl hl hs body)
-      let spec := match Hex.decode impl with
-        | none => "FAIL unparsable implementation answer"
-        | some out =>
-          -- the spec is evaluated on the IMPLEMENTATION's dump; secrets = every non-empty value of every
-          -- header whose name is a listed credential header up to case
-          let (bad, badOther) := leaked d.redactSet rl hl hs body out
-          if !bad.isEmpty then
-            "FAIL the value of a credential header appears in the request dump: " ++ bytesStr (bad.head?.getD [])
-          else if !badOther.isEmpty then
-            if impl == model && !canon && !keysCanonical d.redactSet hs then
-              "KNOWN noncanonical-key a credential header whose map key is not in canonical spelling is dumped in clear (exact-match lookup in requestHeadersToRedact): " ++ bytesStr (badOther.head?.getD [])
-            else "FAIL the value of a credential header appears in the request dump: " ++ bytesStr (badOther.head?.getD [])
-          else "ok"
       (d, { model, spec })
   | _ => (d, { model := "bad-op" })
 
